@@ -15,7 +15,7 @@
   `cleanup` — *not* the externally added connections still waiting in
   `new_connections`; the per-address counters also count those.
 -/
-import Mhd.Proofs.LimitsStep
+import Mhd.Proofs.LimitsTrace
 
 namespace Mhd.C09
 open Mhd.Limits
@@ -70,6 +70,68 @@ theorem capacity_restored (cfg : Cfg) (ops : List Op) :
     simp only [tot, h1, h2, h3, h4, mu_nil] at this
     by_cases hg : s.cfg.perIp = 0 ∨ a = 0 <;> simp [hg] at this <;> exact this
 
+/-- Stopping the daemon after any history (`MHD_stop_daemon` called once, suspended connections
+    resumed before as the API demands — otherwise the C code MHD_PANICs, `stopSuspended`):
+    no connection is left in any list, both kinds of counters are zero, and over the whole
+    trace every connection that ever arrived (index `< nextId`: accepted, refused or failed at
+    any exit) had its socket closed exactly once, every start notification is matched by
+    exactly one close notification, and no connection is started twice. -/
+theorem stop_exactly_once (cfg : Cfg) (ops : List Op) :
+    let r := run (St.init cfg) ops
+    let q := step r.1 .stop
+    r.1.shutdown = false → r.1.fault = none → q.1.fault ≠ some .stopSuspended →
+    (q.1.newL = [] ∧ q.1.active = [] ∧ q.1.susp = [] ∧ q.1.cleanup = []) ∧
+    q.1.connections = 0 ∧ (∀ a, q.1.ipCount a = 0) ∧
+    (∀ c, fdc c (r.2 ++ q.2) = if c < r.1.nextId then 1 else 0) ∧
+    (∀ c, clc c (r.2 ++ q.2) = stc c (r.2 ++ q.2) ∧ stc c (r.2 ++ q.2) ≤ 1) := by
+  intro r q h1 h2 h3
+  have hq : q = stop r.1 := step_stop_eq r.1 h1 h2
+  have he := stop_empties r.1 (by rw [← hq]; exact h3)
+  rw [← hq] at he
+  obtain ⟨e1, e2, e3, e4⟩ := he
+  have hinv : Inv q.1 := Mhd.Limits.step_inv r.1 .stop (run_inv cfg ops)
+  have ht0 : TInv r.1 ([] ++ r.2) := run_tinv ops _ [] (init_tinv cfg)
+  have ht : TInv q.1 (r.2 ++ q.2) := by simpa using step_tinv r.1 .stop _ ht0
+  have hn : q.1.nextId = r.1.nextId := by rw [hq]; exact (stop_bal 0 r.1).2
+  refine ⟨⟨e1, e2, e3, e4⟩, ?_, ?_, ?_, ?_⟩
+  · have := hinv.conns; simpa [e2, e3, e4] using this
+  · intro a
+    have := hinv.ip a
+    simp only [tot, e1, e2, e3, e4, mu_nil] at this
+    by_cases hg : q.1.cfg.perIp = 0 ∨ a = 0 <;> simp [hg] at this <;> exact this
+  · intro c
+    have := (ht c).1
+    simp only [NN, LL, e1, e2, e3, e4, nu_nil, hn] at this
+    simpa using this
+  · intro c
+    obtain ⟨a1, a2, a3⟩ := ht c
+    simp only [NN, LL, e1, e2, e3, e4, nu_nil, hn] at a1 a2
+    refine ⟨by omega, ?_⟩
+    have : fdc c (r.2 ++ q.2) ≤ 1 := by
+      by_cases hlt : c < r.1.nextId
+      · rw [if_pos hlt] at a1; omega
+      · rw [if_neg hlt] at a1; omega
+    omega
+
+/-- Without a stop: in every reachable state every connection index that was ever handed to
+    the daemon is either still in one of the lists or had its socket closed exactly once, and
+    the started-but-not-closed connections are exactly the members of the three counted lists
+    (so never more than `limit` of them, by `limits_hold`). -/
+theorem lifecycle_balance (cfg : Cfg) (ops : List Op) (c : Nat) :
+    let r := run (St.init cfg) ops
+    fdc c r.2 + ((r.1.newL ++ r.1.active ++ r.1.susp ++ r.1.cleanup).filter (fun x => x.id == c)).length
+      = (if c < r.1.nextId then 1 else 0) ∧
+    stc c r.2 = ((r.1.active ++ r.1.susp ++ r.1.cleanup).filter (fun x => x.id == c)).length + clc c r.2 := by
+  intro r
+  have ht0 : TInv r.1 ([] ++ r.2) := run_tinv ops _ [] (init_tinv cfg)
+  obtain ⟨a1, a2, _⟩ := ht0 c
+  simp only [List.nil_append, NN, LL, nu_nil, Nat.add_zero] at a1 a2
+  constructor
+  · rw [← a1]
+    simp [nu, List.countP_eq_length_filter, List.filter_append]; omega
+  · rw [a2]
+    simp [nu, List.countP_eq_length_filter, List.filter_append]; omega
+
 /-- Non-vacuity: a history with a refused arrival (global limit), a per-address refusal, a
     policy refusal, a failed allocation, a suspended and an upgraded connection reaches a
     state with one active, one suspended and one upgraded connection. -/
@@ -89,6 +151,15 @@ def demoOps : List Op :=
 example : let s := (run (St.init demoCfg) demoOps).1
     s.connections = 3 ∧ s.active.length = 1 ∧ s.susp.length = 2 ∧ (s.susp.filter (·.urh)).length = 1 ∧
     s.ipCount 1 = 1 ∧ s.ipCount 2 = 1 ∧ s.ipCount 3 = 1 ∧ s.ipCount 4 = 0 ∧ s.fault = none := by
+  decide
+
+/-- Non-vacuity of `stop_exactly_once`: the demo history followed by the application closing the
+    upgraded connection, resuming the suspended one, and `stop`: no panic, 7 sockets closed. -/
+example : let r := run (St.init demoCfg) (demoOps ++ [.upClose 4, .resume 0])
+    let q := step r.1 .stop
+    r.1.shutdown = false ∧ r.1.fault = none ∧ q.1.fault = none ∧ r.1.nextId = 7 ∧
+    (q.2.filter (fun e => match e with | .fdClose _ => true | _ => false)).length = 3 ∧
+    (q.2.filter (fun e => match e with | .connClose _ => true | _ => false)).length = 3 := by
   decide
 
 end Mhd.C09
